@@ -48,6 +48,9 @@ pub enum Atom {
     InvalidExit { actual: i32, expected: Option<i32>, line: usize },
     /// a long expectation list: `len` expectations, all optional and unmatched except a required unmatched one at `required_at`; `lines` output lines `x`
     LongList { len: usize, required_at: usize, lines: usize },
+    /// a hand-built diff ("any diff shape", also shapes the diff tool of today never produces): one item per code,
+    /// 0 matched expectation (1 line), 1 unmatched expectation, 2 one unexpected line, 3 two unexpected lines, 4 expectation matched by two lines
+    Shape { items: Vec<u8> },
     Internal,
     Timeout,
     Skipped,
@@ -117,6 +120,45 @@ fn build_outcome(i: usize, atom: &Atom, case: &RenderCase) -> Option<(Outcome, &
                 return None;
             }
             (r, "malformed_output")
+        }
+        Atom::Shape { items } => {
+            if items.iter().all(|c| *c == 0 || *c == 4) {
+                return None; // no difference: not a failed outcome
+            }
+            let mut lines: Vec<DiffLine> = vec![];
+            let mut out: Vec<u8> = vec![];
+            let (mut e, mut o) = (0usize, 0usize);
+            let mut take = |n: usize, o: &mut usize, out: &mut Vec<u8>| -> Vec<(usize, Vec<u8>)> {
+                (0..n)
+                    .map(|_| {
+                        let l = format!("out{}\n", *o).into_bytes();
+                        out.extend_from_slice(&l);
+                        *o += 1;
+                        (*o - 1, l)
+                    })
+                    .collect()
+            };
+            for c in items {
+                match c {
+                    0 | 4 => {
+                        let n = if *c == 0 { 1 } else { 2 };
+                        let text = if *c == 0 { format!("out{o}") } else { "out* (glob+)".to_string() };
+                        let expectation = MAKER.with(|m| m.parse(&text)).ok()?;
+                        tc.expectations.push(expectation.clone());
+                        lines.push(DiffLine::MatchedExpectation { index: e, expectation, lines: take(n, &mut o, &mut out) });
+                        e += 1;
+                    }
+                    1 => {
+                        let expectation = MAKER.with(|m| m.parse(&format!("exp{e}"))).ok()?;
+                        tc.expectations.push(expectation.clone());
+                        lines.push(DiffLine::UnmatchedExpectation { index: e, expectation });
+                        e += 1;
+                    }
+                    _ => lines.push(DiffLine::UnexpectedLines { lines: take(*c as usize - 1, &mut o, &mut out) }),
+                }
+            }
+            output.stdout = out.into();
+            (Err(TestCaseError::MalformedOutput(scrut::diff::Diff::new(lines))), "malformed_output")
         }
         Atom::InvalidExit { actual, expected, line } => {
             tc.exit_code = *expected;
@@ -260,15 +302,30 @@ impl Engine for VcRender {
                 })
             })
         });
-        Box::new(lists.chain(long).chain(singles))
+        // (d) hand-built diff shapes
+        let shape_len = match tier {
+            Tier::Quick => 4,
+            Tier::Thorough => 5,
+        };
+        let params4: Vec<(u8, bool, usize)> = vec![(0, false, 5), (1, false, 0), (1, true, 1), (2, false, 5), (3, false, 5), (5, false, 5)];
+        let shapes = words_upto(5, shape_len).flat_map(move |w| {
+            let items: Vec<u8> = w.iter().map(|i| *i as u8).collect();
+            let params4 = params4.clone();
+            [false, true].into_iter().flat_map(move |cram| {
+                let items = items.clone();
+                params4.clone().into_iter().map(move |(renderer, absolute, surrounding)| RenderCase { atoms: vec![Atom::Shape { items: items.clone() }], location: true, cram, ascii: false, line_number: 3, renderer, absolute, surrounding })
+            })
+        });
+        Box::new(lists.chain(long).chain(shapes).chain(singles))
     }
     fn bound(&self, tier: Tier) -> String {
         let (max_e, max_l, list_len) = match tier {
             Tier::Quick => (1, 2, 2),
             Tier::Thorough => (2, 2, 3),
         };
+        let shape_len = if matches!(tier, Tier::Quick) { 4 } else { 5 };
         format!(
-            "(a) single failed outcomes whose diff is produced by the real validate for every expectation list <= {max_e} x output <= {max_l} lines over {} texts (multi-byte, wide, trailing Unicode whitespace, NUL, ESC, 0xFF, 10000-char line, empty, glob) with/without final newline x both escapers x line numbers {{1,98,9999}} x 16 renderer settings (pretty colour/mono x relative/absolute x 0/1/5 surrounding lines; diff; json; json pretty; yaml); (c) expectation lists of 9..12 entries of which all but one are optional and skipped (line numbering crosses 10 / 100), x 0/1/3 output lines x line numbers {{1,89,98}}; (b) all outcome lists of length <= {list_len} over 7 representatives of the result kinds x location present/absent x escaper x the same renderer settings",
+            "(a) single failed outcomes whose diff is produced by the real validate for every expectation list <= {max_e} x output <= {max_l} lines over {} texts (multi-byte, wide, trailing Unicode whitespace, NUL, ESC, 0xFF, 10000-char line, empty, glob) with/without final newline x both escapers x line numbers {{1,98,9999}} x 16 renderer settings (pretty colour/mono x relative/absolute x 0/1/5 surrounding lines; diff; json; json pretty; yaml); (c) expectation lists of 9..12 entries of which all but one are optional and skipped (line numbering crosses 10 / 100), x 0/1/3 output lines x line numbers {{1,89,98}}; (d) every hand-built diff of <= {shape_len} items over {{matched, unmatched expectation, 1 unexpected line, 2 unexpected lines, expectation matched by 2 lines}} (also shapes that the diff tool of today does not produce, e.g. adjacent runs of unexpected lines) x Markdown/Cram x 6 renderer settings; (b) all outcome lists of length <= {list_len} over 7 representatives of the result kinds x location present/absent x escaper x the same renderer settings",
             texts().len()
         )
     }
@@ -499,6 +556,7 @@ impl Engine for VcRender {
             .map(|a| match a {
                 Atom::Malformed { exps, lines, .. } => 10 + exps.len() * 10 + lines.len() * 10 + exps.iter().chain(lines.iter()).sum::<usize>(),
                 Atom::LongList { len, required_at, lines } => 500 + len * 10 + required_at + lines,
+                Atom::Shape { items } => 10 + items.len() * 10 + items.iter().map(|c| *c as usize).sum::<usize>(),
                 _ => 5,
             })
             .sum();
